@@ -1,6 +1,7 @@
 package rules
 
 import (
+	"go/constant"
 	"go/types"
 	"go/ast"
 	"fmt"
@@ -148,7 +149,7 @@ func (c *Ctx) checkComplementShape(rule string) {
 		case *ssa.MapUpdate:
 			upd = x
 		case *ssa.Lookup:
-			if x.CommaOk {
+			if _, isMap := x.X.Type().Underlying().(*types.Map); isMap {
 				lk = x
 			}
 		}
@@ -188,20 +189,33 @@ func (c *Ctx) checkComplementShape(rule string) {
 					okScan = init0 && step1 && b.String() == "L(a)"
 				}
 			}
-			// emitted value is the loop counter, on the not-found branch
-			for _, ref := range *lk.Referrers() {
-				if ex, ok := ref.(*ssa.Extract); ok && ex.Index == 1 {
-					for _, rr := range *ex.Referrers() {
-						if ifi, ok := rr.(*ssa.If); ok {
-							nf := ifi.Block().Succs[1]
-							for _, in := range nf.Instrs {
-								if st, ok := in.(*ssa.Store); ok && st.Val == ssa.Value(p) {
-									okEmit = true
-								}
+			// emitted value is the loop counter, stored only where the membership test is known to
+			// have failed: the `ok` of a comma-ok lookup, or the value of a plain lookup in a map that
+			// only ever stores `true`
+			var member ssa.Value
+			if lk.CommaOk {
+				for _, ref := range *lk.Referrers() {
+					if ex, ok := ref.(*ssa.Extract); ok && ex.Index == 1 {
+						member = ex
+					}
+				}
+			} else if k, ok := upd.Value.(*ssa.Const); ok && k.Value != nil && k.Value.Kind() == constant.Bool && constant.BoolVal(k.Value) {
+				member = lk
+			}
+			if member != nil {
+				bf := computeBranchFacts(fn)
+				nEmit, bad := 0, 0
+				allInstrs(fn, func(in ssa.Instruction) {
+					if st, ok := in.(*ssa.Store); ok && st.Val == ssa.Value(p) {
+						if _, isElem := st.Addr.(*ssa.IndexAddr); isElem {
+							nEmit++
+							if !bf.knownAt(st.Block(), member, false) {
+								bad++
 							}
 						}
 					}
-				}
+				})
+				okEmit = nEmit > 0 && bad == 0
 			}
 		}
 	}
